@@ -174,6 +174,32 @@ Section LayoutProofs.
     - rewrite Z.div_1_r, Z.mul_1_l. unfold llen. rewrite Nat2Z.id. apply firstn_all.
   Qed.
 
+  (* more generally nothing is cut whenever the carrier item size divides the element size *)
+  Lemma as_memoryview_divides c t :
+    0 < c -> esize mod c = 0 -> wf_layout t ->
+    as_memoryview elem_bytes c t = bytes_of elem_bytes (elems t).
+  Proof.
+    intros Hc Hdiv Hwf. unfold as_memoryview. destruct (numel t =? 0) eqn:Hn.
+    - apply Z.eqb_eq in Hn. pose proof (elems_length t Hwf) as HL. rewrite Hn in HL.
+      destruct (elems t); [reflexivity | unfold llen in HL; cbn in HL; lia].
+    - set (payload := bytes_of elem_bytes (elems t)).
+      assert (HL : llen payload = esize * numel t).
+      { unfold payload. rewrite bytes_of_length, elems_length by exact Hwf. reflexivity. }
+      assert (Hm : llen payload mod c = 0).
+      { rewrite HL, Z.mul_comm, Z.mul_mod, Hdiv, Z.mul_0_r by lia. apply Z.mod_0_l. lia. }
+      pose proof (Z.div_mod (llen payload) c ltac:(lia)) as Hdm. rewrite Hm, Z.add_0_r in Hdm.
+      rewrite <- Hdm. unfold llen. rewrite Nat2Z.id. apply firstn_all.
+  Qed.
+
+  Lemma serialized_length_divides c t :
+    0 < c -> esize mod c = 0 -> wf_layout t ->
+    llen (as_memoryview elem_bytes c t) = esize * numel t.
+  Proof.
+    intros Hc Hdiv Hwf. rewrite as_memoryview_divides by assumption.
+    rewrite bytes_of_length, elems_length by exact Hwf. reflexivity.
+  Qed.
+
+
   (* ---------------------------------------------------------------- deserialization *)
   Lemma take_chunks_bytes_of (l : list E) :
     take_chunks (length l) (Z.to_nat esize) (bytes_of elem_bytes l) = map elem_bytes l.
@@ -229,6 +255,14 @@ Section LayoutProofs.
     from_memoryview esize (as_memoryview elem_bytes 1 t) (t_shape t) = Ok (map elem_bytes (elems t)).
   Proof.
     intros Hwf. rewrite as_memoryview_1 by exact Hwf.
+    apply from_memoryview_bytes_of. apply elems_length. exact Hwf.
+  Qed.
+
+  Lemma roundtrip_divides c t :
+    0 < c -> esize mod c = 0 -> wf_layout t ->
+    from_memoryview esize (as_memoryview elem_bytes c t) (t_shape t) = Ok (map elem_bytes (elems t)).
+  Proof.
+    intros Hc Hdiv Hwf. rewrite as_memoryview_divides by assumption.
     apply from_memoryview_bytes_of. apply elems_length. exact Hwf.
   Qed.
 
